@@ -791,6 +791,10 @@ class Model:
         #TODO this is the same as the evaluate_equation method. Replace it.
         return self.memoize(equation,t)
 
+    def previous_time(self, t):
+        """The grid time before t. Computing t-dt directly carries floating point noise for decimal dt (0.3-0.1 < 0.2)."""
+        return fp.normalize(t - self.dt, self.dt, self.starttime, max(fp.scale(self.starttime), fp.scale(self.dt)))
+
     def memoize(self, equation, arg):
         #TODO: consider making this into an internal method
 
